@@ -208,6 +208,10 @@ def table_ops(draw, rows, cols, max_ops, nstyles, structural=True, merges=True, 
         elif kind == "merge" and merges and rows >= 2 and cols >= 2:
             r1 = draw(st.integers(r, min(rows - 1, r + 3)))
             c1 = draw(st.integers(c, min(cols - 1, c + 3)))
+            if r < rows - 1 and draw(st.integers(0, 2)) == 0:
+                # a banner across the full width over several rows: the rows below its first one have no stored cell at all
+                c, c1 = 0, cols - 1
+                r1 = draw(st.integers(r + 1, min(rows - 1, r + 3)))
             if (r1, c1) == (r, c):
                 continue
             if any(not (r1 < a or c2 < r or c1 < b or d < c) for a, b, c2, d in merged):
